@@ -21,6 +21,7 @@
 package parse
 
 import (
+	"bytes"
 	"fmt"
 	"go/ast"
 	"go/scanner"
@@ -33,6 +34,12 @@ import (
 // Parses the metavariables section of the change at index i.
 func (p *parser) parseMeta(i int, c *section.Change) (*Meta, error) {
 	metaContents, metaLines := section.ToBytes(c.Meta)
+
+	// A comment that spells a line directive ("/*line x.go:10*/") says
+	// nothing about where this section is: go/scanner must not take it for
+	// one, or errors are reported in the file that the comment names.
+	metaContents = bytes.ReplaceAll(metaContents, []byte("/*line "), []byte("/*LINE "))
+	metaContents = bytes.ReplaceAll(metaContents, []byte("//line "), []byte("//LINE "))
 
 	// We will create a new File with the contents of the metavariables
 	// section and map positions in it back to the original file for error
